@@ -312,6 +312,70 @@ def serveAll (minLength : Nat) : Pool → List Req → List Result
   | _, [] => []
   | p, r :: rs => let (o, p') := serve minLength p r; o :: serveAll minLength p' rs
 
+/-! ### a handler that serves a nested request on the same application
+
+The handler runs its first `pos` ops, serves another request through the same Echo (and so
+through the same middleware instance and the same pools) and then runs the rest of its ops.
+The nested request has its own response writer; what it shares with the outer one is the
+`sync.Pool`s: the outer request holds one writer/buffer pair while the nested one draws the
+next one (a fresh one when the pool is empty) and puts it back before the outer one does. -/
+
+/-- the ops before and after the nested request, on the outer request's own state -/
+def serveSplit (minLength : Nat) (pool : Pool) (ae : List Char) (before after : List Op) : Result × Pool :=
+  let raw : Raw := { hdr := { vary := true } }
+  if acceptsGzip ae then
+    let gz := pool.gz.reset true
+    let buf : Bytes := (fun (_ : Bytes) => []) pool.buf
+    let w : Grw := { minLength := minLength, buffer := buf }
+    let s : St := { raw := raw, gz := gz, grw := some w }
+    let r1 := runProg s before
+    let r2 := runProg r1.1 after
+    match r2.1.grw with
+    | some w =>
+      let (s, pool') := finalise r2.1 w
+      (⟨s.raw.writeHeader 200, r1.2 ++ r2.2⟩, pool')
+    | none => (⟨r2.1.raw.writeHeader 200, r1.2 ++ r2.2⟩, pool)
+  else
+    let s : St := { raw := raw }
+    let r1 := runProg s before
+    let r2 := runProg r1.1 after
+    (⟨r2.1.raw.writeHeader 200, r1.2 ++ r2.2⟩, pool)
+
+/-- `sync.Pool.Get`: something an earlier request put back, or a fresh object (`New`) -/
+def poolsGet : List Pool → Pool × List Pool
+  | [] => ({}, [])
+  | p :: ps => (p, ps)
+
+/-- a request with the pool of pools; Get and Put only happen when gzip is accepted -/
+def servePooled (minLength : Nat) (pools : List Pool) (rq : Req) : Result × List Pool :=
+  if acceptsGzip rq.acceptEncoding then
+    let (p, pools) := poolsGet pools
+    let (r, left) := serve minLength p rq
+    (r, left :: pools)
+  else ((serve minLength {} rq).1, pools)
+
+structure NReq where
+  outer : Req
+  pos : Nat                 -- the nested request is served before op number `pos` of the outer handler
+  inner : Option Req
+deriving Repr, Inhabited
+
+/-- outer request, with the nested one in the middle; results in pre-order -/
+def serveNested (minLength : Nat) (pools : List Pool) (rq : NReq) : List Result × List Pool :=
+  let accepts := acceptsGzip rq.outer.acceptEncoding
+  let (p, pools1) := if accepts then poolsGet pools else ({}, pools)
+  let (inner, pools2) :=
+    match rq.inner with
+    | none => ([], pools1)
+    | some irq => let (r, ps) := servePooled minLength pools1 irq; ([r], ps)
+  let (r, left) := serveSplit minLength p rq.outer.acceptEncoding
+    (rq.outer.prog.take rq.pos) (rq.outer.prog.drop rq.pos)
+  (r :: inner, if accepts then left :: pools2 else pools2)
+
+def serveNestedAll (minLength : Nat) : List Pool → List NReq → List Result
+  | _, [] => []
+  | ps, r :: rs => let (os, ps') := serveNested minLength ps r; os ++ serveNestedAll minLength ps' rs
+
 /-! ## reading the wire (client side) -/
 
 inductive Canon where
@@ -382,6 +446,44 @@ def decompressAll : Nat → List (List Char × Body) → List DSeen
   | _, [] => []
   | lo, (ce, b) :: rs => let (o, lo') := decompress lo ce b; o :: decompressAll lo' rs
 
+/-- a request whose handler may serve one nested request through the same application
+    between two of its own body reads (how much it reads before does not change what it sees) -/
+structure DReq where
+  ce : List Char
+  body : Body
+  nested : Option (List Char × Body)
+deriving Repr, Inhabited
+
+/-- `sync.Pool` of gzip.Readers: the left-over states; a fresh reader (`New`) when empty -/
+def readersGet : List Nat → Nat × List Nat
+  | [] => (0, [])
+  | x :: r => (x, r)
+
+/-- an un-nested request with the pool: Get and Put only happen for `Content-Encoding: gzip` -/
+def decompressPooled (pool : List Nat) (ce : List Char) (body : Body) : DSeen × List Nat :=
+  if ce != "gzip".toList then ((decompress 0 ce body).1, pool)
+  else
+    let (gr, pool) := readersGet pool
+    let (o, lo) := decompress gr ce body
+    (o, lo :: pool)
+
+/-- the outer request holds its reader while the nested one draws the next one from the pool
+    and puts it back first; the nested request only happens if the outer handler runs -/
+def decompressReq (pool : List Nat) (rq : DReq) : List DSeen × List Nat :=
+  let usesPool := rq.ce == "gzip".toList
+  let (gr, pool1) := if usesPool then readersGet pool else (0, pool)
+  let (o, lo) := decompress gr rq.ce rq.body
+  let (inner, pool2) :=
+    match rq.nested with
+    | none => ([], pool1)
+    | some (ce, b) =>
+      if o.ran then let (oi, p) := decompressPooled pool1 ce b; ([oi], p) else ([], pool1)
+  (o :: inner, if usesPool then lo :: pool2 else pool2)
+
+def decompressSeq : List Nat → List DReq → List DSeen
+  | _, [] => []
+  | p, r :: rs => let (os, p') := decompressReq p r; os ++ decompressSeq p' rs
+
 /-! ## wire format -/
 open Wire
 
@@ -426,29 +528,41 @@ def pBody : P Body := do
 def encDSeen (d : DSeen) : List String :=
   [encBool d.ran] ++ (match d.view with | .bytes b => ["B", encBytes b] | .untouchedGzip => ["U"]) ++ [encBool d.err]
 
+def pNReq : P NReq := do
+  let outer ← pReq
+  let inner ← opt (do let k ← nat; let r ← pReq; pure (k, r))
+  match inner with
+  | none => pure ⟨outer, 0, none⟩
+  | some (k, r) => pure ⟨outer, k, some r⟩
+
+def pDReq : P DReq := do
+  let ce ← str
+  let b ← pBody
+  let n ← opt (do let ce ← str; let b ← pBody; pure (ce, b))
+  pure ⟨ce, b, n⟩
+
 inductive Line where
-  | gzip (minLength : Nat) (reqs : List Req)
-  | decomp (reqs : List (List Char × Body))
+  | gzip (minLength : Nat) (reqs : List NReq)
+  | decomp (reqs : List DReq)
 
 def pLine : P Line := do
   let k ← tok
   match k with
-  | "G" => do let m ← nat; let rs ← list pReq; pure (.gzip m rs)
-  | "D" => do
-    let rs ← list (do let ce ← str; let b ← pBody; pure (ce, b))
-    pure (.decomp rs)
+  | "G" => do let m ← nat; let rs ← list pNReq; pure (.gzip m rs)
+  | "D" => do let rs ← list pDReq; pure (.decomp rs)
   | _ => failure
 
 /-- lines:
-    `G minLength nreq (acceptEncoding nops op*)*` with ops `L n | H code | W bytes | F |
-    S code nchunks bytes* | T code bytes`
-      → `nreq (status ce cl? vary body nsnaps snap* nrets ret*)*`
-    `D nreq (contentEncoding (P bytes | Z nmembers bytes* defect))*`
-      → `nreq (ran (B bytes | U) err)*` -/
+    `G minLength nreq (acceptEncoding nops op* (0 | 1 at acceptEncoding nops op*))*` with ops
+    `L n | H code | W bytes | F | S code nchunks bytes* | T code bytes`; the optional part is a
+    request the handler serves, nested, before its op number `at`
+      → `nres (status ce cl? vary body nsnaps snap* nrets ret*)*`   (outer before nested)
+    `D nreq (contentEncoding body (0 | 1 contentEncoding body))*`, body = `P bytes | Z nmembers bytes* defect`
+      → `nres (ran (B bytes | U) err)*`                                (outer before nested) -/
 def runLine (line : String) : String :=
   match parseLine pLine line with
   | none => "bad-op"
-  | some (.gzip m rs) => render (encList encResult (serveAll m {} rs))
-  | some (.decomp rs) => render (encList encDSeen (decompressAll 0 rs))
+  | some (.gzip m rs) => render (encList encResult (serveNestedAll m [] rs))
+  | some (.decomp rs) => render (encList encDSeen (decompressSeq [] rs))
 
 end C15
